@@ -19,7 +19,7 @@ static const int NBULK = 6144; // extra slots used by the bulk op (fills whole s
 static const int NMASS = 72000; // further slots used by the mass op only (more than 65535 live blocks in ONE slab; needs slabs of 512 KiB and more)
 
 static int P_maps, P_unmaps, P_slab_first, P_slab_additional, P_large, P_realloc_inplace, P_realloc_moved, P_realloc_map, P_xfree, P_handover, P_take_fail, P_contended_construct, P_remote_free_into_head,
-	P_relink_full, P_mapfail_injected, P_mapfail_while_other_holds, P_skipped, P_poison_redundant, P_unpoison_redundant, P_churn_iters, P_arena_exhausted, P_lock_contention, P_recovered, P_pages_sampled, P_unaligned_slack, P_bulk_blocks, P_slab_filled, P_long_churn, P_granule_runs, P_burst_fail, P_multi_pages_checked, P_reuse_checked, P_huge_maps, P_huge_blocks, P_huge_realloc_grow, P_huge_realloc_clamped, P_huge_lazy, P_subpage_base, P_mass, P_mass_blocks, P_trace_records;
+	P_relink_full, P_mapfail_injected, P_mapfail_while_other_holds, P_skipped, P_poison_redundant, P_unpoison_redundant, P_churn_iters, P_arena_exhausted, P_lock_contention, P_recovered, P_pages_sampled, P_unaligned_slack, P_bulk_blocks, P_slab_filled, P_long_churn, P_granule_runs, P_burst_fail, P_multi_pages_checked, P_reuse_checked, P_huge_maps, P_huge_blocks, P_huge_realloc_grow, P_huge_realloc_clamped, P_huge_lazy, P_subpage_base, P_mass, P_mass_blocks, P_trace_records, P_full_fill;
 
 struct Region { uint64_t base, len; int kind; /*0 slab,1 large*/ int64_t pages; int by_task, by_op; uint64_t cls; bool counted; int64_t live = 0; int last_free_task = 0; uint64_t last_free_step = 0; };
 struct Block { char *ptr = nullptr; size_t req = 0, reported = 0; uint64_t pat = 0; int owner = 0; int alloc_task = 0; bool live = false, offered = false, inflight = false, busy = false; VC chan; };
@@ -35,7 +35,12 @@ static SlabEngine *G;
 static const uint64_t HUGE_MIN = 1ull << 30, TAIL_SIZE = 120ull << 30;
 static inline bool in_tail(const void *p) { uint64_t o = off(p); return o >= arena_size && o < arena_size + TAIL_SIZE; }
 
-static inline uint8_t patbyte(uint64_t pat, size_t i) { return (uint8_t)((pat >> ((i & 7) * 8)) ^ (i * 131) ^ (i >> 8)); }
+// What the owner writes into a block: normally three windows (head, middle, tail) of a per-block pattern. One block in 16
+// (decided by pattern bits, so nothing else has to be remembered) is written and later verified in FULL if it is at most
+// 128 KiB, and half of those hold nothing but zero bytes — whole pages of zeros are ordinary user data too.
+static inline bool pat_zero(uint64_t pat) { return ((pat >> 40) & 31) == 16; }
+static inline bool pat_full(uint64_t pat, size_t w) { return w > 192 && w <= ((size_t)128 << 10) && ((pat >> 40) & 15) == 0; }
+static inline uint8_t patbyte(uint64_t pat, size_t i) { return pat_zero(pat) ? 0 : (uint8_t)((pat >> ((i & 7) * 8)) ^ (i * 131) ^ (i >> 8)); }
 
 struct SlabEngine : Engine {
 	int pc = 0, mt = 0; const SlabApi *api = nullptr; PolicyInfo pi;
@@ -75,7 +80,7 @@ struct SlabEngine : Engine {
 		P_mapfail_while_other_holds = probe_id("map_failure_while_other_task_holds_a_pool_lock"); P_skipped = probe_id("ops_skipped_precondition"); P_poison_redundant = probe_id("kasan_strict:poison_of_poisoned_byte");
 		P_unpoison_redundant = probe_id("kasan_strict:unpoison_of_unpoisoned_byte"); P_churn_iters = probe_id("churn_iterations"); P_arena_exhausted = probe_id("arena_exhausted"); P_lock_contention = probe_id("alloc_or_free_overlapping_another_task's");
 		P_recovered = probe_id("retry_after_map_failure_succeeded"); P_pages_sampled = probe_id("used_pages_sampled"); P_unaligned_slack = probe_id("unaligned_map_nonzero_residue"); P_bulk_blocks = probe_id("bulk_blocks_allocated"); P_slab_filled = probe_id("slab_filled_completely(second_slab_of_class_mapped_in_bulk)"); P_long_churn = probe_id("long_churn_over_65536_allocations"); P_granule_runs = probe_id("runs_with_8_byte_granule_poison_shadow"); P_burst_fail = probe_id("map_failure_inside_a_burst_of_consecutive_failures"); P_multi_pages_checked = probe_id("used_pages_checked_against_measured_slab_sizes_at_end"); P_reuse_checked = probe_id("end_of_run_reuse_test(all_slab_capacity_refilled_without_map)");
-		P_huge_maps = probe_id("huge:map_of_1GiB_or_more(reserved_address_space)"); P_huge_blocks = probe_id("huge:block_of_2^31_bytes_or_more_live"); P_huge_realloc_grow = probe_id("huge:realloc_grew_a_block_to_2^31_bytes_or_more"); P_huge_realloc_clamped = probe_id("huge:realloc_of_a_huge_block_clamped_to_64_bytes"); P_huge_lazy = probe_id("huge:page_committed_on_first_touch_by_the_pool"); P_subpage_base = probe_id("unaligned_map_returned_a_base_that_is_not_page_aligned"); P_mass = probe_id("mass_op:more_than_65535_blocks_live_in_one_slab"); P_mass_blocks = probe_id("mass_op:blocks_allocated"); P_trace_records = probe_id("trace_records_emitted(policy_with_tracing_hooks;content_not_judged)");
+		P_huge_maps = probe_id("huge:map_of_1GiB_or_more(reserved_address_space)"); P_huge_blocks = probe_id("huge:block_of_2^31_bytes_or_more_live"); P_huge_realloc_grow = probe_id("huge:realloc_grew_a_block_to_2^31_bytes_or_more"); P_huge_realloc_clamped = probe_id("huge:realloc_of_a_huge_block_clamped_to_64_bytes"); P_huge_lazy = probe_id("huge:page_committed_on_first_touch_by_the_pool"); P_subpage_base = probe_id("unaligned_map_returned_a_base_that_is_not_page_aligned"); P_mass = probe_id("mass_op:more_than_65535_blocks_live_in_one_slab"); P_mass_blocks = probe_id("mass_op:blocks_allocated"); P_trace_records = probe_id("trace_records_emitted(policy_with_tracing_hooks;content_not_judged)"); P_full_fill = probe_id("large_block_written_and_verified_in_full(half_of_them_all_zero)");
 	}
 	const char *name() override { return "simslab"; }
 	const char *op_name(int k) override { return k >= 0 && k < OP_N ? op_names[k] : "?"; }
@@ -648,7 +653,7 @@ struct SlabEngine : Engine {
 	void fill(Block &b) {
 		size_t n = b.req;
 		auto wr = [&](size_t from, size_t len) { ensure_rw(b.ptr + from, len); user_write(b.ptr + from, len); for (size_t i = 0; i < len; i++) b.ptr[from + i] = (char)patbyte(b.pat, from + i); };
-		if (n <= 192) { if (n) wr(0, n); }
+		if (n <= 192 || pat_full(b.pat, n)) { if (n) wr(0, n); if (n > 192) probe(P_full_fill); }
 		else { wr(0, 64); wr(n / 2 - 16, 32); wr(n - 64, 64); }
 	}
 	void verify(int h, size_t upto, uint64_t pat, const char *what) {
@@ -663,7 +668,7 @@ struct SlabEngine : Engine {
 		(void)n;
 		// the same windows that fill() wrote, computed from the size the pattern was written with
 		size_t w = written_size[h];
-		if (w <= 192) rd(0, w); else { rd(0, 64); rd(w / 2 - 16, 32); rd(w - 64, 64); }
+		if (w <= 192 || pat_full(pat, w)) rd(0, w); else { rd(0, 64); rd(w / 2 - 16, 32); rd(w - 64, 64); }
 	}
 	std::vector<size_t> written_size = std::vector<size_t>(NH + NBULK + NMASS);
 
@@ -786,7 +791,7 @@ struct SlabEngine : Engine {
 			// content
 			size_t w = written_size[src_h];
 			auto rd = [&](size_t from, size_t len) { user_read(b.ptr + from, len); for (size_t i = 0; i < len; i++) if ((uint8_t)b.ptr[from + i] != patbyte(b.pat, from + i)) violation("mapfail_side_effect", "realloc failed but byte %zu of the source block #%d changed", from + i, src_h); };
-			if (w <= 192) { if (w) rd(0, w); } else { rd(0, 64); rd(w / 2 - 16, 32); rd(w - 64, 64); }
+			if (w <= 192 || pat_full(b.pat, w)) { if (w) rd(0, w); } else { rd(0, 64); rd(w / 2 - 16, 32); rd(w - 64, 64); }
 		}
 	}
 
@@ -916,7 +921,7 @@ struct SlabEngine : Engine {
 			for (size_t i = 0; i < len; i++) if ((uint8_t)b.ptr[from + i] != patbyte(pat, from + i))
 				violation("realloc_prefix", "after realloc byte %zu of block #%d is 0x%02x but the old block held 0x%02x (first min(old,new)=%zu bytes must be preserved)", from + i, h, (uint8_t)b.ptr[from + i], patbyte(pat, from + i), keep);
 		};
-		if (w <= 192) rd(0, w); else { rd(0, 64); rd(w / 2 - 16, 32); rd(w - 64, 64); }
+		if (w <= 192 || pat_full(pat, w)) rd(0, w); else { rd(0, 64); rd(w / 2 - 16, 32); rd(w - 64, 64); }
 	}
 
 	// ------------------------------------------------------------ exec
